@@ -213,6 +213,30 @@ def run(ctx):
                 if e2 == []:
                     ctx.fail("a tree with a %s at %s is accepted" % (kind, list(path)),
                              {"tree": m, "zeal": zeal, "defect": kind, "at": list(path)})
+                elif rng.random() < 0.04:
+                    # "at any position reachable through operations, groups, fields, boosts and prefixes": also far
+                    # below the root (well within what the recursive checker can walk; seeded C20-G stops at 200)
+                    deep = m
+                    for lvl in range(rng.choice([210, 260])):
+                        w = rng.choice(["Group", "Plus", "Boost", "AndOperation"])
+                        if w == "Boost":
+                            deep = mk("Boost", [mk("Group", [deep])], num=gen.num(2))
+                        elif w == "AndOperation":
+                            deep = mk("AndOperation", [W("a"), mk("Group", [deep])])
+                        elif w == "Plus":
+                            deep = mk("Plus", [mk("Group", [deep])])
+                        else:
+                            deep = mk("Group", [deep])
+                    try:
+                        od = common.load_tree(deep)
+                        cd = I.check.LuceneCheck(zeal=zeal)
+                        ed = cd.errors(od)
+                        ctx.count("defect far below the root")
+                        if ed == [] or cd(od):
+                            ctx.fail("a tree with a %s more than 200 levels below the root is accepted" % kind,
+                                     {"tree": m, "zeal": zeal, "defect": kind, "levels": "> 200 wrappers around this tree"})
+                    except RecursionError:
+                        pass
     # (d) numbers the model's finite decimals cannot express (implementation only): a degree that is not a number,
     # infinite, or a negative zero, at the root and under every wrapper, every zeal. The checker must answer, never
     # raise (fix F7: the message of a negative degree was formatted with %d), and a degree with a minus sign is a
